@@ -941,6 +941,20 @@ def huge_const_op(n):
                     return True
     return False
 
+def ctyped(n):
+    """expression whose value the compiler represents as a C number / C boolean"""
+    if isinstance(n, ast.Constant):
+        return type(n.value) in (int, float, bool, complex)
+    if isinstance(n, ast.Compare):
+        return True
+    if isinstance(n, ast.UnaryOp):
+        return isinstance(n.op, ast.Not) or ctyped(n.operand)
+    if isinstance(n, ast.BinOp):
+        return ctyped(n.left) and ctyped(n.right)
+    if isinstance(n, ast.IfExp):
+        return ctyped(n.body) and ctyped(n.orelse)
+    return False
+
 def contains(n, types):
     return any(isinstance(x, types) for x in ast.walk(n))
 
@@ -976,8 +990,7 @@ def ast_tags(tree, text, lines):
             hdr = n.decorator_list + n.bases + [k.value for k in n.keywords]
             if any(contains(d, (ast.ListComp, ast.SetComp, ast.DictComp, ast.GeneratorExp)) for d in hdr):
                 t.add("classheader-comp")
-            if n.bases and all(isinstance(b, (ast.Compare, ast.Constant)) or (isinstance(b, ast.UnaryOp) and isinstance(b.op, ast.Not))
-                               for b in n.bases) and not all(isinstance(b, ast.Constant) and isinstance(b.value, (str, bytes, type(None), type(...))) for b in n.bases):
+            if n.bases and all(ctyped(b) for b in n.bases):
                 t.add("classbases-all-c-typed")
         if isinstance(n, (ast.FunctionDef, ast.AsyncFunctionDef, ast.ClassDef)):
             if any(contains(d, ast.Await) for d in n.decorator_list):
@@ -986,6 +999,11 @@ def ast_tags(tree, text, lines):
             for case in n.cases:
                 if any(isinstance(x, (ast.FunctionDef, ast.AsyncFunctionDef)) for b in case.body for x in ast.walk(b)):
                     t.add("def-in-match-case")
+        if isinstance(n, (ast.With, ast.AsyncWith)) and any(ctyped(it.context_expr) and not (isinstance(it.context_expr, ast.Constant) and type(it.context_expr.value) is int) for it in n.items):
+            t.add("with-item-c-float")
+        if isinstance(n, ast.Try) and n.finalbody and any(isinstance(x, ast.AnnAssign) and not x.simple and isinstance(x.target, ast.Name)
+                                                          for b in n.finalbody for x in ast.walk(b)):
+            t.add("paren-annassign-in-finally")
         if isinstance(n, ast.AugAssign) and contains(n.target, ast.GeneratorExp):
             t.add("augtarget-genexp")
         if isinstance(n, (ast.Module, ast.ClassDef, ast.FunctionDef, ast.AsyncFunctionDef)) and n.body:
